@@ -191,6 +191,19 @@ def gen_sec(rng, name, depth, budget, hostile=0.5, **kw):
         budget[0] -= ns
         for n in unique_names(rng, ns, hostile * 0.6):
             s["sections"].append(gen_sec(rng, n, depth - 1, budget, hostile, **kw))
+        # siblings whose names differ in letter case only, with the same type: two different names
+        if s["sections"] and rng.random() < 0.12:
+            first = s["sections"][0]
+            variant = first["name"].swapcase()
+            if variant != first["name"] and variant.strip() not in {c["name"].strip() for c in s["sections"]}:
+                twin = gen_sec(rng, variant, 0, [1], hostile, **kw)
+                twin["type"] = first["type"]
+                s["sections"].append(twin)
+    if s["properties"] and rng.random() < 0.1:
+        first = s["properties"][0]
+        variant = first["name"].swapcase()
+        if variant != first["name"] and variant.strip() not in {c["name"].strip() for c in s["properties"]}:
+            s["properties"].append(gen_prop(rng, variant, hostile, **pkw))
     return s
 
 
